@@ -180,6 +180,15 @@ def render_guard(guard: Optional[GuardIR]) -> Optional[str]:
     if guard is None:
         return None
     if not guard.is_composite:
+        # 🎛️ A parameterised guard (`{"type": "atLeast", "params": {...}}`,
+        #    `stateIn` with its `state`) must keep its params: emitted as a
+        #    bare name it reached the predicate with no params at all, and
+        #    `stateIn` lost the state it asks about.
+        if guard.params:
+            return (
+                f"{{'type': {literal(guard.type)}, "
+                f"'params': {literal(guard.params)}}}"
+            )
         return literal(guard.type)
     children = ", ".join(
         _render_guard_value(child) for child in guard.children
